@@ -1,6 +1,7 @@
 import Qentem.Proofs.TmplText
 import Qentem.Proofs.ExprScanSafe
 import Qentem.Proofs.TmplRenderSafe
+import Qentem.Proofs.TmplParseVarRaw
 import Qentem.Generated.Tmpl
 /-!
 # C01 — rendering any template text with any value is memory-safe and terminates
@@ -12,6 +13,8 @@ Proved here (for every content, every character width — code units are `Nat`):
   `≤ length`, reports "no match" only at the end of the content, and every match moves forward.
 * `expr_scan_safe`  the expression scanner inside a tag performs no out-of-range read.
 * `render_safe_of_wf`  rendering a well-formed tag tree performs no out-of-range access.
+* `parse_wf_varraw`, `render_safe_varraw`  stage 1 of `parse_wf`: contents whose only tags are
+  `{var:}` / `{raw:}` parse to a well-formed tree, hence parse+render is free of out-of-range accesses.
 * `parse_text`, `render_text`  content without `{` and `<` parses to no tags without a failing read
   and renders to itself for every value.
 Open (statements below, decided run by run through the correspondence / sanitizer streams of
@@ -97,6 +100,26 @@ theorem render_safe_of_wf {R : Type} [RealLike R] (cx : RCtx R) (hg : cx.guardIn
 
 /-- non-vacuity: the tag tree of `x{var:a}` is well-formed -/
 example : wf 8 ([Tag.var ⟨6, 1, 0, 0⟩] : List (Tag Rat)) = true := by decide
+
+/-- `parse_wf`, stage 1 (var / raw): if from no offset the Finder reports anything but `}`, `{var:`
+or `{raw:` (`OnlyVarRaw`; decidable form `onlyVarRawB`), `parse` makes no failing read and returns a
+well-formed tag list — every content (below the 32-bit size limit), every number reader. -/
+theorem parse_wf_varraw {R : Type} (cfg : ScanCfg R) (c : List Nat)
+    (hn : c.length + 16 < 4294967296) (h : OnlyVarRaw c) :
+    ∃ tags, parse cfg c = .ok tags ∧ wf c.length tags = true :=
+  Qentem.Tmpl.parse_wf_varraw cfg c hn h
+
+/-- End-to-end for that sub-language: parse + render makes no out-of-range access, for every
+value, formatter and escape setting. -/
+theorem render_safe_varraw {R : Type} [RealLike R] (cx : RCtx R) (hg : cx.guardIndexRead = true)
+    (cfg : ScanCfg R) (hn : cx.content.length + 16 < 4294967296) (h : OnlyVarRaw cx.content)
+    (fuel : Nat) :
+    Safe ((parse cfg cx.content).bind (fun tags => renderTop cx tags fuel)) (fun _ => True) :=
+  Qentem.Tmpl.render_safe_varraw cx hg cfg hn h fuel
+
+/-- non-vacuity: `x{var:a}}{raw:b[0]}` satisfies the hypothesis -/
+example : OnlyVarRaw ("x{var:a}}{raw:b[0]}".toList.map Char.toNat) :=
+  onlyVarRaw_of_check _ (by decide)
 
 /-- Open statement: what `parse` returns is well-formed (`parse_wf`).  Evaluated on every generated
 and malformed template of `checks/c01.py` through the driver op `tplwf`. -/
